@@ -121,7 +121,7 @@ def cons (j : Json) : Except String Json := do
   pure (Json.mkObj [("ghost", jQs ((allIdx fshape).map a)), ("integral", jQ v)])
 
 /-- The term the run theorems of `Props/C05d.lean` are about, evaluated at `Rat`:
-{"cls","shape","lo","dx","per":[bool..],"scheme":"euler"|"rk4"|"implicit"|"crank-nicolson" (+ "maxiter","maxerror","alpha"),"eq":"diffusion"|"cahn-hilliard","coef": D | γ,
+{"cls","shape","lo","dx","per":[bool..],"scheme":"euler"|"rk4"|"implicit"|"crank-nicolson" (+ "maxiter","maxerror","alpha"),"eq":"diffusion"|"cahn-hilliard"|"two-fields" (data = cells of `a`, then of `c`; `twoFieldRate`, mass of `c`),"coef": D | γ | κ,
  "dt","ts","te","data":[values of the valid cells, row-major]}
  -> {"state": `state.data` after `solverRuns (validCells shape) solver (consRate …) dt te (dt/10^6) 16 ts data 0` (the controller loop
      around `solverRun`), "t": final time, "steps": total number of steps, "mass0"/"mass1": `cellMass` (integral without the factor pi) before / after} -/
@@ -154,17 +154,19 @@ def run (j : Json) : Except String Json := do
     | "crank-nicolson" => pure (RunSolver.crankNicolson alpha maxiter maxerror)
     | _ => throw s!"scheme {schS}")
   let l0 : Rat := lo.getD 0 0
-  let mu ← (match eqS with
-    | "diffusion" => pure (muDiffusion coef)
-    | "cahn-hilliard" => pure (muCahnHilliard cls l0 dx (consFaces shape false dx per) coef)
-    | _ => throw s!"equation {eqS}")
-  let cells := validCells shape
+  let cells := if eqS == "two-fields" then cells2 shape else validCells shape
   if data.length ≠ cells.length then throw "data does not match the shape"
-  match solverRuns cells sol (consRate cls shape l0 dx per mu) dt te (dt / 1000000) 16 ts data 0 with
+  let rate ← (match eqS with
+    | "diffusion" => pure (consRate cls shape l0 dx per (muDiffusion coef))
+    | "cahn-hilliard" => pure (consRate cls shape l0 dx per (muCahnHilliard cls l0 dx (consFaces shape false dx per) coef))
+    | "two-fields" => pure (twoFieldRate cls shape l0 dx per coef)
+    | _ => throw s!"equation {eqS}")
+  let mass : List Rat → Rat := if eqS == "two-fields" then cellMass2 cls shape l0 dx else cellMass cls shape l0 dx
+  match solverRuns cells sol rate dt te (dt / 1000000) 16 ts data 0 with
   | none => throw "step failed"
   | some (s', tr, steps) =>
     pure (Json.mkObj [("state", jQs s'), ("t", jQ tr), ("steps", Json.num steps),
-      ("mass0", jQ (cellMass cls shape l0 dx data)), ("mass1", jQ (cellMass cls shape l0 dx s'))])
+      ("mass0", jQ (mass data)), ("mass1", jQ (mass s'))])
 
 def handlers : List (String × Handler) := [("c05.integral", integral), ("c05.cons", cons), ("c05.run", run)]
 end PdeVerif.Drv.C05
